@@ -1119,8 +1119,20 @@ def bounds_program(rng, max_bits=10, tiny=False):
                 return ["e", ["b", op, ["f", list(p)], rhs]]
         if c < 0.85:
             items = []
+            same_n = [(q, qd) for q, qd in nons if qd["s"] == fd["s"]]
             for _ in range(r.randint(1, 4)):
-                if r.random() < 0.5:
+                cc = r.random()
+                if same_n and cc < 0.3:
+                    # values / range ends given by non-random fields (they change between the calls)
+                    q, qd = r.choice(same_n)
+                    c3 = r.random()
+                    if c3 < 0.4:
+                        items.append(["f", list(q)])
+                    elif c3 < 0.7:
+                        items.append(["rng", ["c", r.randint(lo, hi)], ["f", list(q)]])
+                    else:
+                        items.append(["rng", ["f", list(q)], ["c", r.randint(lo, hi)]])
+                elif cc < 0.6:
                     items.append(["c", r.randint(lo, hi)])
                 else:
                     a, b = r.randint(lo, hi), r.randint(lo, hi)
@@ -1244,6 +1256,17 @@ def dist_entries(r, lo, hi, nmax=4, weights_from=None):
         ents.append([item, w])
     if all(e[1] == ["c", 0] for e in ents):
         ents[0][1] = ["c", 2]
+    if r.random() < 0.3:
+        # a zero-weight entry that punches a hole into a listed range (or repeats a listed value)
+        rngs = [e for e in ents if e[0][0] == "rng" and e[0][2][1] > e[0][1][1] and e[1] != ["c", 0]]
+        if rngs:
+            e = r.choice(rngs)
+            lo_, hi_ = e[0][1][1], e[0][2][1]
+            if r.random() < 0.6 or hi_ - lo_ < 2:
+                ents.insert(r.randrange(len(ents) + 1), [["c", r.randint(lo_, hi_)], ["c", 0]])
+            else:
+                a_ = r.randint(lo_, hi_ - 1)
+                ents.insert(r.randrange(len(ents) + 1), [["rng", ["c", a_], ["c", r.randint(a_, hi_)]], ["c", 0]])
     return ents
 
 
@@ -1309,7 +1332,7 @@ def order_pair(rng):
     r = rng
     wa = r.choice([1, 2, 2])
     wb = r.choice([2, 3])
-    chain = r.random() < 0.3
+    chain = r.random() < 0.45
     fields = [{"n": "a", "k": "int", "w": wa, "s": False, "r": True},
               {"n": "b", "k": "int", "w": wb, "s": False, "r": True}]
     if chain:
@@ -1346,22 +1369,26 @@ def order_pair(rng):
                      [["e", ["in", ["f", ["b"]], [["c", x] for x in sorted(r.sample(range(bmax + 1), r.randint(1, 2)))]]]]]]
         return [["e", ["b", "<=", ["b", "+", ["f", ["a"]], ["f", ["b"]]], ["u", bmax, wb + 1]]]]
     progs = []
-    vary = "bc" if (chain and r.random() < 0.6) else "ab"
+    vary = "bc" if (chain and r.random() < 0.7) else "ab"
     shared_ab = coupling()
 
-    def bc_coupling():
-        k = r.choice(["rel", "imp", "ifeq"])
+    bc_ops = r.sample(["<=", ">=", "!=", "<"], 2)     # the two partner programs get couplings of different multiplicity
+    bc_first = r.random() < 0.5
+    bc_kind = r.choice(["rel", "rel", "imp", "ifeq"])
+
+    def bc_coupling(which=0):
+        k = bc_kind
         if k == "rel":
-            return [["e", ["b", r.choice(["<=", "!=", ">=", "<"]), ["f", ["c"]], ["f", ["b"]]]]]
+            return [["e", ["b", bc_ops[which], ["f", ["c"]], ["f", ["b"]]]]]
         if k == "imp":
             return [["imp", ["b", "!=", ["f", ["c"]], ["c", 0]], [["e", ["b", "!=", ["f", ["b"]], ["c", r.randint(0, bmax)]]]]]]
         return [["if", [[["b", "==", ["f", ["b"]], ["c", r.randint(0, bmax)]], [["e", ["b", "==", ["f", ["c"]], ["c", r.randint(0, 3)]]]]]], None]]
     for which in range(2):
         st = [copy.deepcopy(s) for s in own] + (copy.deepcopy(shared_ab) if vary == "bc" else coupling())
         if chain:
-            bc = bc_coupling()
+            bc = bc_coupling(which)
             # the statements may mention later chain members before their predecessors
-            st = (bc + st) if r.random() < 0.5 else (st + bc)
+            st = (bc + st) if bc_first else (st + bc)
         order = []
         if extra_a and r.random() < 0.5:
             order.append(["so", [["a"], ["x"]], [["b"]]])
